@@ -211,6 +211,16 @@ class SpecGen:
                 args = [a for a in args if a[0] != 'Tuple']
                 return ['Call', ['Fn', fn], args]
             a, _ = self.access(t, allow_bad=False)
+            if r.random() < 0.35:
+                # the function is itself a spec, and so are the arguments: func, then args, left to right — each sub-spec
+                # announces itself through a probe, and either may fail with its own exception class
+                fspec = ['Spec', ['Tuple', [self.next_probe(), r.choice([['Val', {'fn': fn}], ['Val', {'fn': fn}], ['Str', 'zz']])]], []]
+                args = []
+                for _ in range(r.randint(1, 2)):
+                    args.append(['Spec', ['Tuple', [self.next_probe(), r.choice([a, a, ['T', 'T', []], ['Fn', ['raise', 'ValueError']]])]], []])
+                if fn[0] != 'addargs':
+                    args = args[:1]
+                return ['Call', fspec, args]
             arg = r.choice([['T', 'T', []], a if a[0] == 'T' else ['Spec', a, []], ['Lit', 5], ['Str', 'lit'],
                             ['List', [['T', 'T', []], ['Lit', 1]]]])
             return ['Call', ['Fn', fn], [arg]]
